@@ -6,6 +6,7 @@ import petl as etl
 from hypothesis import strategies as st
 
 from pv import gen, codec
+from pv import scale
 from pv.core import Sub, Fail, exc_fail
 from pv.order import ref_cmp, ref_key
 from pv.ref import base as R
@@ -66,6 +67,9 @@ def case(draw, tier):
         # setitem: fields added by item assignment; setitem-late: some of them only after the view has been iterated once
         c["form"] = draw(st.sampled_from(["ordereddict", "dict", "list", "setitem", "setitem-late"]))
     c["via_config"] = draw(st.integers(0, 3)) == 0
+    if len(tbl) > 1 and op not in ("rowgroupmap_deep",):
+        c["blowup"] = draw(scale.blowup(odds=40, sizes=[130, 300, 600, 1030], wide=False))
+        c["big_buffersize"] = draw(st.sampled_from([None, 1000, 7, "n/300", "n/130", "n/2"]))
     if op == "agg_none":
         c["spec"] = draw(st.sampled_from(["len", "list", "multi"]))
     if op == "merge":
@@ -158,6 +162,20 @@ def check(case, ctx):
 
 
 def _check(case, ctx):
+    if case.get("blowup"):
+        # at scale: the rows repeated (id column renumbered); chunk sizes that give a few hundred chunk files
+        b = case["blowup"]
+        tbl = scale.apply(case["table"], b)
+        for i, r in enumerate(tbl[1:]):
+            if len(r) > 3:
+                r[3] = i
+        nb = len(tbl) - 1
+        bs = case.get("big_buffersize")
+        bs = bs if not isinstance(bs, str) else max(1, nb // int(bs.split("/")[1]))
+        case = dict(case, table=tbl, buffersize=bs, upstream="none")
+        if case["op"] == "merge":
+            case["table2"] = case["table2"][:3]
+        scale.label(ctx, b)
     op, tbl, key = case["op"], case["table"], case["key"]
     petl_key = _keyfn if key == "callable" else key
     groups = _groups(tbl, key) if op not in ("agg_none", "valuecounts") else []
